@@ -77,6 +77,7 @@ type Req struct {
 	NoExec    bool   `json:",omitempty"`
 	Shared    bool   `json:",omitempty"` // initialise with option values shared by all instances of the package
 	PrintRaw  bool   `json:",omitempty"`
+	Reinit    bool   `json:",omitempty"` // history mode: Init(options...) again instead of Reset() between the inputs
 	Misuse    bool   `json:",omitempty"` // after the parse the owner replaces Buffer by "" without Reset and prints the stale tree (recovered)
 	TreeFirst bool   `json:",omitempty"`
 	Print     bool   `json:",omitempty"` // conc mode: capture the process's standard output, report its byte histogram
